@@ -199,6 +199,13 @@ pub fn run(seed: u64, n: u64, target: usize, path: &str) -> Value {
                         let _ = anstyle_git::parse(&format!("no{word} -{word} +{word} bright{word}"));
                     }
                 }
+                // prefixes in front of every OTHER spelling of a colour or attribute (a prefix does not make the rest a colour name)
+                for pre in ["bright", "no", "no-", "-", "+", "BRIGHT", "brightbright"] {
+                    for rest in ["normal", "default", "-1", "0", "7", "8", "15", "255", "256", "#fff", "#00ff00", "bold", "ul", "reset", "", "red"] {
+                        let _ = anstyle_git::parse(&format!("{pre}{rest}"));
+                        let _ = anstyle_git::parse(&format!("bold {pre}{rest} {pre}{rest}"));
+                    }
+                }
                 true
             }));
             apis.push(guard("render(parsed styles)", || {
